@@ -182,3 +182,95 @@ def check_c11(tier):
          "one request at a time per server so that body_frame events can be attributed"],
         time.time() - t0, len(findings.violations))
     return rc
+
+
+def _pagination(prop, tier):
+    import os
+    import subprocess
+    t0 = time.time()
+    vlib.build_harness()
+    findings = vlib.Findings(prop)
+    thorough = tier != "quick"
+    cfgname = "MC_Pagination_run.cfg"
+    cfg = "\n".join([
+        "SPECIFICATION ScanSpec", "CONSTANTS", "  MaxItems = %d" % (3 if not thorough else 4),
+        "  DefItems = 2", "  MaxN = %d" % (9 if not thorough else 14),
+        "  LimitParams = {%s}" % ", ".join(str(i) for i in range(0, 6 if not thorough else 8)),
+        "INVARIANT PageBounds", "INVARIANT InOrderOnce", "INVARIANT Complete", "INVARIANT ScanLength",
+        "INVARIANT CasesTotal", "INVARIANT TokenWins", "INVARIANT BadAlwaysRejected",
+        "INVARIANT IssuedIsAcceptable", "INVARIANT EmitCases", "PROPERTY ScanTerminates",
+        "CHECK_DEADLOCK FALSE", ""])
+    res = vlib.run_tlc(prop + "-pagination", "MC_Pagination.tla", cfgname, workers=4, timeout=900,
+                       extra_files={cfgname: cfg}, coverage=False)
+    vlib.tlc_ok(res, "pagination")
+    if res.violated:
+        findings.add({"engine": "pagination-model", "kind": "invariant:" + str(res.violated), "shape": "other"},
+                     {"tlc_trace": res.trace[-4000:]})
+    if res.nvectors != 1:
+        raise vlib.ToolError("expected exactly one class table from TLC, got %d" % res.nvectors)
+    outdir = os.path.join(vlib.WORK, "pagination-" + prop)
+    os.makedirs(outdir, exist_ok=True)
+    cases = os.path.join(outdir, "cases.json")
+    with open(res.vectors_path) as f, open(cases, "w") as g:
+        g.write(f.readline())
+    path = os.path.join(outdir, "trace.ndjson")
+    p = subprocess.run([vlib.harness_bin("drive_pagination"), tier, cases, path],
+                       env=dict(os.environ, VERIF_SEED=str(vlib.seed())),
+                       stdout=subprocess.PIPE, stderr=subprocess.PIPE, text=True, timeout=3000)
+    if p.returncode != 0:
+        raise vlib.ToolError("drive_pagination failed: %s" % p.stderr[-2000:])
+    neps, nev, rejects, states = vlib.validate_trace_episodes(
+        prop + "-trace", "TracePagination.tla", "TracePagination.cfg", path, max_rejects=12)
+    c15_events = {"page", "scan_end", "scan_runaway"}
+    other = 0
+    for rj in rejects:
+        ev = rj["event"].get("ev", "?")
+        hdr = rj["episode_header"]
+        is_scan = hdr.get("kind") == "scan"
+        mine = (prop == "C15") == (ev in c15_events or (is_scan and ev == "handler_page") or
+                                   (rj["invariant"] == "ScanInv"))
+        if mine:
+            findings.add({"engine": "pagination-trace", "kind": rj["invariant"] or ("unexplained:" + ev),
+                          "shape": hdr.get("kind", "?")},
+                         {"episode": hdr, "rejected_event": rj["event"], "state_before": rj["state_before"],
+                          "episode_events": rj["episode"][-12:],
+                          "note": "no behaviour of Pagination.tla explains what the real pagination code did"})
+        else:
+            other += 1
+    with open(path) as f:
+        counts = {}
+        samples = []
+        for ln in f:
+            if '"ev":"' not in ln:
+                continue
+            ev = ln.split('"ev":"')[1].split('"')[0]
+            counts[ev] = counts.get(ev, 0) + 1
+            if ev in ("page", "case", "mutant", "issue") and counts[ev] in (3, 40) and len(samples) < 6:
+                samples.append(json.loads(ln))
+    rc = findings.report()
+    vlib.write_evidence(
+        prop, tier, "model_checking",
+        {"states": res.distinct + states, "transitions": res.generated + states,
+         "traces_validated_against_impl": neps, "samples": samples, "trace_events": nev,
+         "scans": counts.get("scan_end", 0), "pages_fetched": counts.get("page", 0),
+         "class_cases_executed": counts.get("case", 0), "tokens_issued_or_refused": counts.get("issue", 0),
+         "token_mutants": counts.get("mutant", 0), "rejections_attributed_to_other_property": other,
+         "rule": "TLC checks every complete scan for n <= MaxN, every limit parameter and the class table; the live "
+                 "paginated endpoint (real constants 10000/100) is scanned end to end for 13 collection sizes x 11 "
+                 "limits x 2 orders (one event per page), every cell of the class table is instantiated with concrete "
+                 "tokens / limits / scan parameters against the live endpoint and the query deserialiser, tokens are "
+                 "issued around the 512-byte bound and mutated at byte level; all events validated by TracePagination.tla"},
+        ["the collection and the after-marker query are harness code; dropshot's part is the limit, the token and the "
+         "page envelope", "limits above i32::MAX are logged as i32::MAX (TLC integers are 32-bit); any limit above the "
+         "server maximum is equivalent in the specification",
+         "the class of a mutated token is decided by the harness's own base64/JSON decoder"],
+        time.time() - t0, len(findings.violations))
+    return rc
+
+
+def check_c14(tier):
+    return _pagination("C14", tier)
+
+
+def check_c15(tier):
+    return _pagination("C15", tier)
